@@ -389,6 +389,10 @@ func runFileSink(rc *RunCtx, prop string, crash bool, faults bool) {
 		}
 		if faults && e.Returned && e.Err == nil {
 			rc.Stat("fs.acked-under-faults", 1)
+			if len(recs) > 1 {
+				// a write that failed without writing anything, then the retry succeeded
+				simrt.Probe("fs.retry-after-failed-write")
+			}
 		}
 		if faults && e.Returned && e.Err != nil {
 			rc.Stat("fs.error-returned", 1)
